@@ -492,4 +492,51 @@ def rule_terminal_codec(P):
     return R
 
 
+def rule_header_type(P):
+    """every accessor of the index-set cardinality header (the forest's unhashed extra header) uses one element type"""
+    R = RuleResult("codec.header-type", "the index-set cardinality kept in a node's unhashed header is written, printed, read back and queried with one element type, and the query returns that type")
+    sites = []   # (type, what, function record, line)
+    for f in P.fns.values():
+        if not f.get("cfg"):
+            continue
+        for b in f["cfg"]["blocks"]:
+            for ev in b["ev"]:
+                if ev["k"] == "call" and ev["q"] == M + "unpacked_node::setUHdata" and ev.get("argptr") and ev["args"][0].startswith("&"):   # typed store of a scalar; raw byte copies between buffers carry no type
+                    sites.append((ev["argptr"][0], "setUHdata(&%s)" % ev["args"][0].lstrip("&"), f, ev["line"]))
+                elif ev["k"] == "cast" and ev["of"] in (M + "unpacked_node::UHptr", M + "node_storage::getUnhashedHeaderOf", M + "simple_separated::getUnhashedHeaderOf"):
+                    sites.append((ev["to"], "(%s*) %s()" % (ev["to"], ev["of"].split("::")[-1]), f, ev["line"]))
+                elif ev["k"] == "store" and ev["member"] == M + "forest::unhashed_bytes" and "sizeof" in ev["rhs"]:
+                    m = re.search(r"sizeof\s*\(\s*([^)]+?)\s*\)", ev["rhs"])
+                    if m:
+                        sites.append((m.group(1), "unhashed_bytes = sizeof(%s)" % m.group(1), f, ev["line"]))
+    q = P.find(M + "forest::getIndexSetCardinality")
+    for f in q:
+        sites.append((f["rettype"], "return type of getIndexSetCardinality", f, f["line"]))
+    seen = set()
+    uniq = []
+    for s in sites:
+        k = (s[1], s[2]["q"], s[2]["file"])
+        if k not in seen:
+            seen.add(k)
+            uniq.append(s)
+    if len(uniq) < 5:
+        raise AnalysisBroken("codec.header-type: expected the writer (mdd2index), readHeaderInfo, show/writeHeaderInfo, the size declaration and the query; found %d sites" % len(uniq))
+    from collections import Counter
+    cnt = Counter(t for t, *_ in uniq)
+    major = cnt.most_common(1)[0][0]
+    # the writer defines the truth: the type stored by mdd2index
+    wr = [t for t, what, f, _ in uniq if "mdd2index" in f["q"]]
+    truth = wr[0] if wr else major
+    for t, what, f, line in sorted(uniq, key=lambda s: (s[2]["file"], s[3])):
+        R.functions.add(f["inst"])
+        iid = "%s: %s" % (f["q"].replace(M, ""), what)
+        if t == truth:
+            R.ok(iid, where(f, line))
+        else:
+            R.fail(iid, where(f, line), Finding(R.rule, f["file"], f["q"], "return-type" if "return" in what else ("cast" if what.startswith("(") else what.split("(")[0].strip()),
+                   "the cardinality header is stored as `%s` (mdd2index) but accessed here as `%s`: counts that do not fit are truncated / misread" % (truth, t), line))
+    R.require_floor(5, "accessors of the cardinality header")
+    return R
+
+
 RULES = [rule_tokens, rule_terminal_io, rule_sections, rule_keywords, rule_code_chars, rule_domain_order]
